@@ -889,6 +889,14 @@ class PropertyRun:
             rec.update({'obligations': len(rep.obligations), 'discharged': sum(1 for o in rep.obligations if o.result == 'unsat'),
                         'configs': rep.configs, 'paths': rep.paths, 'return_paths': rep.returns, 'raise_paths': rep.raises,
                         'vcgen_s': round(rep.seconds, 2)})
+            c_ = getattr(rep, 'contract', None)
+            if c_ is not None and getattr(c_, 'is_fragment', False):
+                # a fragment contract: which statements of the function are under contract, and what the contract says
+                rec['fragment'] = getattr(c_, 'key', rep.qualname).split('#')[-1]
+                blk = getattr(c_, 'stmt_block', None) or getattr(c_, 'stmt_range', None)
+                rec['fragment_of'] = ('statements from %r %s' % (blk[0], ('to %r' % (blk[1],)) if not isinstance(blk[1], int) else '(%d statement(s))' % blk[1])) if blk else ('body of loop #%s' % getattr(c_, 'loop_ordinal', '?'))
+            if c_ is not None and (c_.__doc__ or '').strip():
+                rec['contract'] = ' '.join((c_.__doc__ or '').split())[:600]
             funcs.append(rec)
         trusted = set()
         for rep in getattr(self, 'reports', []):
